@@ -1,4 +1,1 @@
-# Claimed in DESIGN.md, check still under construction in this round: listed under not_applicable
-# with that reason until the check lands (the list is kept current as checks are added).
-for pid in ["C13","C14","C17","C18"]:
-    PENDING[pid] = "Claimed in DESIGN.md; its simulation check is under construction and not yet registered. Not a verdict of inapplicability."
+# all claimed checks are registered
